@@ -14,13 +14,15 @@ func init() {
 		ID: "C21",
 		Explanation: "Decides structural necessary conditions of C21 on every exit path: (RESTORE-DEFER) in withOp.exec the restore loop runs in a Go defer registered before the first assignment, and set() saves the old value before Var.Set and hands the restore function to the collector only on Set's success edge; tmp registers its restore through the frame's defer list; (DEFERS-RUN) in Closure.Call runDefers is called on every path after the body; (REVERSE) both restore loops run from the last registered function down to the first; (BODY-WINS) an exception produced by a restore/deferred function replaces the result only when the body's own result is nil. Which exception wins in nested dynamic cases is not decided.",
 		NotCovered:  "values restored (that save captures the right value), dynamic nesting of tmp/with/defer across calls",
-		Rules:       []string{"RESTORE-DEFER", "DEFERS-RUN", "REVERSE", "BODY-WINS", "FORK-SHARED: the list of deferred/restore functions, shared by the forks of a frame, is appended to only with a mutex held", "OP-READONLY: the exec method of a compiled op (and its closures) never writes a field of the op or an element of a slice/map held in one"},
+		Rules:       []string{"RESTORE-DEFER", "DEFERS-RUN", "REVERSE", "BODY-WINS", "FORK-SHARED: the list of deferred/restore functions, shared by the forks of a frame, is appended to only with a mutex held", "OP-READONLY: the exec method of a compiled op (and its closures) never writes a field of the op or an element of a slice/map held in one", "DEFER-FORK: a function registered with addDefer calls Elvish code on a fork, not on the finishing closure's own frame", "EXC-NONNIL: an exception is built around an error value only where that value is known to be non-nil (or the result is audited as absorbed by MakePipelineError)", "RESTORE-ALWAYS: in set() the call of the restore collector depends only on error tests and on the collector being non-nil"},
 		Patterns:    []string{"./pkg/eval"},
-		Run:         func(p *core.Program, r *core.Report) { runC21(p, r); runRCDirect(p, r); runForkShared(p, r, "FORK-SHARED"); runOpReadonly(p, r, "OP-READONLY") },
-		MinCounts:   map[string]int{"OP-READONLY": 20, "FORK-SHARED": 1, "RESTORE-DEFER": 4, "DEFERS-RUN": 1, "REVERSE": 2, "BODY-WINS": 2},
+		Run:         func(p *core.Program, r *core.Report) { runC21(p, r); runRCDirect(p, r); runForkShared(p, r, "FORK-SHARED"); runOpReadonly(p, r, "OP-READONLY"); runDeferFork(p, r); runExcNonNil(p, r); runRestoreAlways(p, r) },
+		MinCounts:   map[string]int{"RESTORE-ALWAYS": 1, "DEFER-FORK": 1, "EXC-NONNIL": 4, "OP-READONLY": 20, "FORK-SHARED": 1, "RESTORE-DEFER": 4, "DEFERS-RUN": 1, "REVERSE": 2, "BODY-WINS": 2},
 		Trusted:     trustedBase,
 		Controls: []core.Control{
 			{Name: "revert-fix-defers-unlocked", Rule: "FORK-SHARED", File: "pkg/eval/frame.go", Old: "\tfm.defers.mu.Lock()\n\tdefer fm.defers.mu.Unlock()\n\tfm.defers.fns = append(fm.defers.fns, f)", New: "\tfm.defers.fns = append(fm.defers.fns, f)", Fire: true, Want: "addDefer"},
+			{Name: "revert-fix-deferred-success-becomes-exception", Rule: "EXC-NONNIL", File: "pkg/eval/builtin_fn_flow.go", Old: "\t\tif err == nil {\n\t\t\treturn nil\n\t\t}\n\t\tif exc, ok := err.(Exception); ok {\n\t\t\treturn exc\n\t\t}\n\t\treturn &exception{err, deferTraceback}", New: "\t\tif exc, ok := err.(Exception); ok {\n\t\t\treturn exc\n\t\t}\n\t\treturn &exception{err, deferTraceback}", Fire: true, Want: "deferFn"},
+			{Name: "revert-fix-deferred-callback-on-own-frame", Rule: "DEFER-FORK", File: "pkg/eval/builtin_fn_flow.go", Old: "\t\terr := fn.Call(fm.Fork(), NoArgs, NoOpts)\n\t\tif err == nil {", New: "\t\terr := fn.Call(fm, NoArgs, NoOpts)\n\t\tif err == nil {", Fire: true, Want: "deferFn"},
 			{Name: "op-remembers-last-run", Rule: "OP-READONLY", File: "pkg/eval/compile_effect.go", Old: "\tif op.bg {\n\t\tfm = fm.Fork()\n", New: "\tif op.bg {\n\t\top.source = op.source + \" &\"\n\t\tfm = fm.Fork()\n", Fire: true, Want: "pipelineOp"},
 			{Name: "op-forms-reordered-in-place", Rule: "OP-READONLY", File: "pkg/eval/compile_effect.go", Old: "\tif op.bg {\n\t\tfm = fm.Fork()\n", New: "\tif op.bg {\n\t\tforms := op.forms\n\t\tif len(forms) > 1 {\n\t\t\tforms[0], forms[1] = forms[1], forms[0]\n\t\t}\n\t\tfm = fm.Fork()\n", Fire: true, Want: "pipelineOp"},
 			{Name: "benign-op-copies-forms-before-changing", Rule: "OP-READONLY", File: "pkg/eval/compile_effect.go", Old: "\tif op.bg {\n\t\tfm = fm.Fork()\n", New: "\tif op.bg {\n\t\tforms := append([]*formOp(nil), op.forms...)\n\t\tif len(forms) > 1 {\n\t\t\tforms[0], forms[1] = forms[1], forms[0]\n\t\t}\n\t\tfm = fm.Fork()\n", Fire: false},
